@@ -8,7 +8,7 @@ CountEv(evs, kind, id) == Cardinality({i \in 1..Len(evs) : evs[i].ev = kind /\ e
 
 SingleCall(el) ==
   LET ccs == SelectSeq(Coalesce(el.children), Contributes) IN
-  IF Len(ccs) = 1 /\ ccs[1].k = "expr" /\ ccs[1].e.k = "call" THEN ccs[1].e.name ELSE ""
+  IF Len(ccs) = 1 /\ ccs[1].k = "expr" /\ Peel(ccs[1].e).k = "call" THEN Peel(ccs[1].e).name ELSE ""
 
 (* "lazily evaluated": the vnodes of written child elements are created inside a slot invocation, never *)
 (* while the host vnode itself is being created                                                        *)
@@ -20,15 +20,22 @@ EagerChild(ob) ==
   LET el == ob.abs.items[1].elem  evs == ob.rt.events IN
   \E i \in 1..Len(evs) : evs[i].ev = "vnode" /\ evs[i].tag \in ChildTags(el) /\ DepthAt(evs, i) = 0
 
+Evaluations(ob) == IF ob.abs.items[1].ctx \in {"loop_first", "while_first", "calls_first", "field_first", "param_first"} THEN 2 ELSE 1
 Why(ob, D) ==
   LET w == WhyElem(ob, D) IN
-  IF w # "" THEN w
+  \* Deviation (known finding): the temporary of a call child in a parameter default / class field initialiser is
+  \* one variable of the enclosing scope, shared by all evaluations; the lazily read slot of an earlier vnode
+  \* then shows the value of a later evaluation
+  IF w # "" THEN (IF "Dev_SharedTemporaryAcrossEvaluations" \in D /\ ob.abs.items[1].ctx \in {"param_first", "field_first"}
+                     /\ w = "s1:children" /\ SingleCall(ob.abs.items[1].elem) # "" /\ OptsOf(ob, D).enableObjectSlots
+                  THEN "" ELSE w)
   ELSE IF EagerChild(ob) THEN "child-element-created-outside-its-slot"
   ELSE LET el == ob.abs.items[1].elem  f == SingleCall(el)  o == OptsOf(ob, D) IN
-       IF f # "" /\ o.enableObjectSlots /\ CountEv(ob.rt.events, "call", f) # 1 THEN "call-child-not-once"
+       \* the *_first contexts evaluate the site twice (and observe the first result)
+       IF f # "" /\ o.enableObjectSlots /\ CountEv(ob.rt.events, "call", f) # Evaluations(ob) THEN "call-child-not-once"
        ELSE ""
 
-ListedDevs == {}
+ListedDevs == {"Dev_SharedTemporaryAcrossEvaluations"}
 Init == c \in 1..NObs /\ done = FALSE
 Finish ==
   /\ ~done /\ done' = TRUE /\ c' = c
